@@ -11,6 +11,8 @@ E9  in every arm of the expression / statement lowering, the environment effects
     environment at the arm's exit (no child runs on a copy that is thrown away)
 E8  mux_envs re-creates every scope and re-binds every binding as a fresh vector of push_mux(condition, a[i], b[i]);
     no scope or binding can be skipped and the result's storage is never written directly
+E11 the parser places every parsed sub-expression into the tree once: sugar never clones an operand into a second evaluated position
+E12 the lowering lowers every child expression of a node once: no child is cloned, none is lowered inside a loop over something else
 E10 cross-reference: the accessor copy of the array read tree agrees with the expression copy (C01-V8)
 """
 from .. import mir, protocol
@@ -591,5 +593,131 @@ def rule_e10(ctx):
     return res
 
 
+NO_COPY = {k: v for k, v in mir.TRANSPARENT.items() if k not in ("std::clone::Clone::clone", "std::borrow::ToOwned::to_owned", "std::option::Option::<&T>::cloned", "std::iter::Iterator::cloned")}
+AST_NODE = lambda ty: "<()>" in ty          # every node type of the untyped syntax tree
+
+
+def _overlap(p, q):
+    n = min(len(p), len(q))
+    return tuple(p[:n]) == tuple(q[:n])
+
+
+def rule_e11(ctx):
+    """Syntactic sugar must not copy an operand: every parsed sub-expression may be placed into the tree once.  A clone of an
+    expression that ends up in the result next to the expression it was cloned from is evaluated twice by the lowering
+    (assignments and failing operations inside it happen twice)."""
+    from . import C07
+    res = RuleResult("E11", "the parser places every parsed sub-expression into the syntax tree once (no operand is cloned into a second evaluated position)")
+    n = 0
+    for f in C07.front_fns(ctx, ("parse.rs",)):
+        body = ctx.body(f["id"])
+        for b, t in body.calls():
+            if t["func"].get("declared") != "std::clone::Clone::clone" or body.blocks[b]["cleanup"]:
+                continue
+            a0 = t["args"][0]
+            if a0["k"] not in ("copy", "move") or "Expr<()>" not in a0["place"]["ty"]:
+                continue
+            n += 1
+            src = body.trace(a0["place"])
+            # (1) does the clone reach the result?
+            t_clone = mir.forward_taint(body, {t["dest"]["l"]}, carries=AST_NODE)
+            if 0 not in t_clone:
+                res.ok({"function": f["id"], "clone": "line %d" % t["sp"][1], "verdict": "the copy does not reach the result"})
+                continue
+            # (2) other uses of (a container of) the original that reach the result, on a common path with the clone
+            seeds = {}
+            for bb, blk in enumerate(body.blocks):
+                if blk["cleanup"]:
+                    continue
+                users = []
+                for st in blk["stmts"]:
+                    if st["k"] == "assign" and st["rv"]["k"] in ("use", "aggregate"):
+                        ops = [st["rv"]["op"]] if st["rv"]["k"] == "use" else st["rv"]["ops"]
+                        users.append((ops, st["place"]["l"], st["sp"]))
+                tt = blk.get("term")
+                if tt and tt["k"] == "call" and bb != b:
+                    users.append((tt["args"], tt["dest"]["l"], tt["sp"]))
+                for ops, dest, sp in users:
+                    for o in ops:
+                        if o["k"] != "move" or not AST_NODE(o["place"]["ty"]):
+                            continue
+                        if any(r == r2 and _overlap(p, p2) for (r, p) in body.trace(o["place"], through=NO_COPY) for (r2, p2) in src):
+                            # the value must still be the one that was cloned: no re-definition of the moved local in between
+                            chain, cur = [o["place"]["l"]], o["place"]["l"]
+                            while len(chain) < 6:
+                                ds = body.defs().get(cur, [])
+                                if len(ds) == 1 and ds[0][0] == "assign" and ds[0][3]["rv"]["k"] == "use" and ds[0][3]["rv"]["op"]["k"] in ("copy", "move") \
+                                        and not ds[0][3]["rv"]["op"]["place"]["p"]:
+                                    cur = ds[0][3]["rv"]["op"]["place"]["l"]
+                                    chain.append(cur)
+                                else:
+                                    break
+                            kills = {d[1] for l in chain for d in body.defs().get(l, []) if d[0] in ("assign", "call")} - {bb, b}
+                            if bb == b or body.path(b, [bb], blocked=kills):
+                                seeds.setdefault(dest, sp)
+            dup = None
+            common = {x for x in range(body.n) if x == b or b in body.reachable([x]) or x in body.reachable([b])}
+            for dest, sp in sorted(seeds.items()):
+                if dest in t_clone and dest != 0:
+                    continue        # the same flow as the clone itself
+                # the flow of the original, not through the clone call and only along paths shared with it
+                if dest == 0 or 0 in mir.forward_taint(body, {dest}, carries=AST_NODE, blocks=common, skip_calls={b}):
+                    dup = sp
+                    break
+            if dup:
+                what = sorted("%s%s" % (mir.last_seg(str(r[2])) if r[0] == "call" else "%s %s" % (r[0], r[1]), "".join("." + str(x) for x in p[-2:])) for (r, p) in src)
+                res.bad(Finding("E11", f["id"], "operand (%s) cloned into a second evaluated position" % ", ".join(what),
+                                "a parsed expression is cloned and both the copy and the original become part of the statement / expression that is returned: the lowering "
+                                "evaluates it twice, so an assignment or a failing operation inside it happens twice", t["sp"],
+                                witness=["original placed at line %d" % dup[1]]))
+            else:
+                res.ok({"function": f["id"], "clone": "line %d" % t["sp"][1], "verdict": "the original is dropped, only the copy is placed"})
+    if n < 2 and not res.findings:
+        raise AnchorMissing("E11: expected the expression clones of parse.rs (3 on the pinned tree after 71e8dfa), found %d" % n)
+    return res
+
+
+def rule_e12(ctx):
+    """The lowering evaluates a child of a node once: it neither clones a child expression (to lower the copy as well) nor lowers
+    the same child inside a loop."""
+    res = RuleResult("E12", "the lowering lowers every child expression of a node once (no child is cloned or lowered repeatedly)")
+    n = 0
+    for f in ctx.fns.values():
+        if f["sp"][0] != "src/compile.rs" or not f.get("mir"):
+            continue
+        body = ctx.body(f["id"])
+        node_args = [("arg", i) for i in range(1, body.arg_count + 1) if "<ast::Type>" in body.locals[i]["ty"] and "Program" not in body.locals[i]["ty"]]
+        if not node_args:
+            continue
+        loops = body.loops()
+        for b, t in body.calls():
+            if body.blocks[b]["cleanup"] or not t["args"] or t["args"][0]["k"] not in ("copy", "move"):
+                continue
+            ty0 = t["args"][0]["place"]["ty"]
+            if t["func"].get("declared") == "std::clone::Clone::clone" and "Expr<ast::Type>" in ty0 and "Vec<" not in ty0:
+                n += 1
+                src = body.trace(t["args"][0]["place"])
+                if any(r in node_args for (r, p) in src):
+                    res.bad(Finding("E12", f["id"], "child expression cloned in the lowering",
+                                    "a child of the node is cloned; lowering the copies evaluates the child more than once (`({ x = x + 1u8; x }) * 3u8` incremented x three times)", t["sp"]))
+                else:
+                    res.ok({"function": f["id"], "clone": "line %d" % t["sp"][1], "verdict": "not a child of the node (built by the lowering itself)"})
+            elif mir.last_seg(mir.callee(t) or "").startswith("compile") and "Expr<ast::Type>" in ty0:
+                inl = [lp for lp in loops if b in lp["body"]]
+                if not inl:
+                    continue
+                n += 1
+                src = body.trace(t["args"][0]["place"])
+                child = [(r, p) for (r, p) in src if r in node_args]
+                if child and not all("[]" in p for (r, p) in child):
+                    res.bad(Finding("E12", f["id"], "child expression lowered inside a loop",
+                                    "the same child of the node is lowered in every iteration of a loop: it is evaluated as many times as the loop runs", t["sp"]))
+                else:
+                    res.ok({"function": f["id"], "lowered": "line %d" % t["sp"][1], "verdict": "a different element of the node's child list in every iteration"})
+    if n < 3 and not res.findings:
+        raise AnchorMissing("E12: expected clone / loop sites in the lowering, found %d" % n)
+    return res
+
+
 def run(ctx):
-    return ctx.run_rules([rule_e1, rule_e2, rule_e3, rule_e4, rule_e5, rule_e6, rule_e7, rule_e8, rule_e9, rule_e10])
+    return ctx.run_rules([rule_e1, rule_e2, rule_e3, rule_e4, rule_e5, rule_e6, rule_e7, rule_e8, rule_e9, rule_e10, rule_e11, rule_e12])
